@@ -1,6 +1,21 @@
 (* C18 -- boolean checkers used by the correspondence (harness/props/c18.py): the model of
    Model/C18.v is evaluated on the note arrays and alignment the implementation received and
-   compared with what the implementation returned.  Definitions only. *)
+   compared with what the implementation returned.  Definitions only.
+
+   Two families of comparisons:
+   * PROPERTY bits (c18_check): what the property text demands of the implementation's outputs,
+     phrased with the model's decoder and specifications -- the matched table holds the model's
+     pairs in any order, snote_ids are ANY sorted permutation of the matched score notes, the
+     parameter array is CONSISTENT with the performance as the decoder reads it (whatever tempo
+     curve, timing origin and normalisation constants the encoder chose), every decoded
+     performance is what the model decoder makes of those parameters (onsets up to one shift), the
+     time maps pass through the knots.  A failure is a violation.
+   * TIE bits (c18_tie): that the implementation still computes these outputs by the very
+     formulas written in Model/C18.v (alignment order, tie-break by note-array position, grouping,
+     tempo_by_average / tempo_by_derivative, timing origin = mean of the first chord, v / 127,
+     normalisation constants mean / population variance, decoded onsets starting at 0, linear
+     interpolation and extrapolation).  The property does not prescribe them: a failure is recorded
+     as model drift (failed obligation), not as a violation. *)
 From Coq Require Import ZArith QArith Qabs Qround List Bool.
 From PV Require Import Lib.Base Lib.Round Model.C18.
 Import ListNotations.
@@ -11,6 +26,7 @@ Definition close (rel abs a b : Q) : bool :=
 Definition rel_f32 : Q := 5 # 10000000.     (* 4 ulp of float32 *)
 Definition abs_f32 : Q := 1 # 10000000.
 Definition rel_log : Q := 1 # 100000.       (* fields that went through log2 / 2** in single precision *)
+Definition abs_small : Q := 1 # 1000000.
 
 Fixpoint all2 {A B} (f : A -> B -> bool) (a : list A) (b : list B) : bool :=
   match a, b with
@@ -20,20 +36,24 @@ Fixpoint all2 {A B} (f : A -> B -> bool) (a : list A) (b : list B) : bool :=
   end.
 Definition nat_list_eqb := list_eqb Nat.eqb.
 Definition groups_eqb (a b : list (list nat)) : bool := list_eqb nat_list_eqb a b.
+Definition spread (l : list Q) : Q := maxl l - minl l.
 
-(* matched score columns from the note arrays *)
-Section MScore.
-  Variables (sna : list srow) (pna : list prow) (al : list al_entry).
-  Definition ms_pairs := matched_sorted sna pna al.
-  Definition ms_srow (m : nat * nat) := nth (fst m) sna sdefault.
-  Definition ms_prow (m : nat * nat) := nth (snd m) pna pdefault_row.
-  Definition ms_ids := map (fun m => s_id (ms_srow m)) ms_pairs.
-  Definition ms_so := map (fun m => s_on (ms_srow m)) ms_pairs.
-  Definition ms_sd := map (fun m => s_dur (ms_srow m)) ms_pairs.
-  Definition ms_po := map (fun m => p_on (ms_prow m)) ms_pairs.
-  Definition ms_pd := map (fun m => Qmaxb (p_dur (ms_prow m)) floor_pdur) ms_pairs.
-  Definition ms_vel := map (fun m => p_velo (ms_prow m)) ms_pairs.
-End MScore.
+(* matched score columns from the note arrays, for the matched pairs M in a given order *)
+Section Rows.
+  Variables (sna : list srow) (pna : list prow) (M : list (nat * nat)).
+  Definition r_srow (m : nat * nat) := nth (fst m) sna sdefault.
+  Definition r_prow (m : nat * nat) := nth (snd m) pna pdefault_row.
+  Definition r_ids := map (fun m => s_id (r_srow m)) M.
+  Definition r_so := map (fun m => s_on (r_srow m)) M.
+  Definition r_sd := map (fun m => s_dur (r_srow m)) M.
+  Definition r_po := map (fun m => p_on (r_prow m)) M.
+  Definition r_pdraw := map (fun m => p_dur (r_prow m)) M.
+  Definition r_pd := map (fun m => Qmaxb (p_dur (r_prow m)) floor_pdur) M.
+  Definition r_vel := map (fun m => p_velo (r_prow m)) M.
+End Rows.
+(* the order of to_matched_score as modelled (tie-break: position in the score note array) *)
+Definition ms_pairs (sna : list srow) (pna : list prow) (al : list al_entry) := matched_sorted sna pna al.
+Definition ms_ids sna pna al := r_ids sna (ms_pairs sna pna al).
 
 Definition tempo_curve (method : Z) (x s : list Q) : list Q :=
   if Z.eqb method 0 then tempo_average x s else tempo_derivative x s.
@@ -42,7 +62,99 @@ Definition tempo_curve (method : Z) (x s : list Q) : list Q :=
 Definition enc_rows (so sd po pd : list Q) (vel : list Z) (G : list (list nat)) (bp : list Q) :=
   encode Q id_scale (fun x => x) so sd po pd vel G bp.
 
-(* normalisation columns.  Python applied 2** to logarithmic columns before printing them. *)
+(* implementation's parameter row: beat_period, velocity, timing, 2^articulation_log *)
+Definition irow := (Q * Q * Q * Q)%type.
+Definition LP := params (list Q).
+(* parameter rows as the decoder called with normalisation [normd] reads them *)
+Definition mkparams (normd : Z) (prm : list irow) (ncols : list (list Q)) : list LP :=
+  map2 (fun r c => match r with (b, v, t, a) =>
+          mkP (list Q) b (if Z.eqb normd 0 then [b] else c) t a v end) prm ncols.
+Definition lp_default : LP := pdefault (list Q) [].
+Definition l_bps (norm : Z) (G : list (list nat)) (P : list LP) : list Q :=
+  dec_bps (list Q) colmean (rescale_n norm) [] G P.
+Definition l_decode (norm : Z) (so sd : list Q) (G : list (list nat)) (P : list LP) : list (Q * Q * Z) :=
+  decode (list Q) colmean (rescale_n norm) [] (fun x => x) so sd G P.
+
+(* ---------- PROPERTY: the parameter array is consistent with the performance ---------- *)
+Definition enc_consistent_bits (norm : Z) (dtol bperr : Q) (so sd po pdraw : list Q) (vel : list Z)
+           (prm : list irow) (ncols : list (list Q)) : list bool :=
+  let n := List.length so in
+  let idx := seq 0 n in
+  let G := dec_groups so in
+  let P := mkparams norm prm ncols in
+  let bps := l_bps norm G P in
+  [ (* the beat_period column is what the normalisation columns rescale to *)
+    Nat.eqb (List.length prm) n && Nat.eqb (List.length ncols) n &&
+    forallb (fun j => close rel_log (bperr + abs_small) (p_bp _ (nth j P lp_default)) (nthQ bps (gidx G j))) idx;
+    (* timing: one common offset for all notes *)
+    Qle_bool (spread (map (cons_off (list Q) colmean (rescale_n norm) [] so sd po G P) idx)) dtol;
+    (* articulation of notes with a score duration: 2^art * score duration * beat period = performed
+       duration (as to_matched_score holds it: floored at 0.075 s, known finding C18-K2, or unfloored) *)
+    forallb (fun j =>
+       if Qle_bool (nthQ sd j) 0 then true else
+       let a := p_art _ (nth j P lp_default) in
+       let d := a * nthQ sd j * nthQ bps (gidx G j) in
+       let tol := abs_small + Qabs (a * nthQ sd j) * bperr in
+       close rel_log tol d (Qmaxb (nthQ pdraw j) floor_pdur) || close rel_log tol d (nthQ pdraw j)) idx;
+    (* velocity parameter decodes to the performed velocity *)
+    forallb (fun j => Z.eqb (dec_vel (p_vel _ (nth j P lp_default))) (nth j vel 0%Z)) idx ].
+
+(* ---------- PROPERTY: a decoded performance = the model decoder on the same parameters ---------- *)
+Fixpoint find_dec (id : Z) (dec : list (Z * Q * Q * Z)) : option (Q * Q * Z) :=
+  match dec with
+  | [] => None
+  | (i, o, d, v) :: r => if Z.eqb i id then Some (o, d, v) else find_dec id r
+  end.
+Definition decode_ok (normd : Z) (dtol bperr : Q) (so sd : list Q) (sids : list Z)
+           (prm : list irow) (ncols : list (list Q)) (dec : list (Z * Q * Q * Z)) : bool :=
+  let G := dec_groups so in
+  let P := mkparams normd prm ncols in
+  let out := l_decode normd so sd G P in
+  let got := map (fun id => find_dec id dec) sids in
+  Nat.eqb (List.length dec) (List.length sids) && Nat.eqb (List.length out) (List.length sids) &&
+  forallb (fun g => match g with Some _ => true | None => false end) got &&
+  all2 (fun g m => match g, m with
+        | Some (_, gd, gv), (_, md, mv) =>
+            close rel_log (abs_small + Qabs md * bperr) gd md && Z.eqb gv mv
+        | None, _ => false end) got out &&
+  Qle_bool (spread (map2 (fun g m => match g with Some (go, _, _) => go - fst (fst m) | None => 0 end) got out)) dtol.
+
+(* ---------- time maps ---------- *)
+(* test: (kind, x, observed y); kind 0: stime_to_ptime at a knot, 1: ptime_to_stime at a knot (property);
+   2: stime_to_ptime elsewhere, 3: ptime_to_stime elsewhere (tie: linear interpolation / extrapolation) *)
+Definition tm_test := (Z * Q * Q)%type.
+Definition tm_test_ok (K : list (Q * Q)) (tol : Q) (t : tm_test) : bool :=
+  match t with (kind, x, y) =>
+    close 0 tol y (if Z.even kind then stime_to_ptime K x else ptime_to_stime K x) end.
+Definition check_tmaps (prop : bool) (K : list (Q * Q)) (tol : Q) (tests : list tm_test) : bool :=
+  forallb (fun t => match t with (kind, _, _) =>
+     if Bool.eqb (Z.ltb kind 2) prop then tm_test_ok K tol t else true end) tests.
+
+Definition c18_case :=
+  ((Z * Z) * list srow * list prow * list al_entry *
+   (list (Z * Z) * list Z * list (list Z) * list irow * list (list Q)) *
+   (Q * Q * list (Z * list (Z * Q * Q * Z))) *
+   (bool * Q * list tm_test))%type.
+
+(* PROPERTY bits *)
+Definition c18_prop_bits (c : c18_case) : list bool :=
+  match c with
+  | ((method, norm), sna, pna, al, (midx, sids, uidx, prm, ncols), (dtol, bperr, decs), (rmo, ttol, tests)) =>
+    let M := matched_idx (map s_id sna) (map C18.p_id pna) al in
+    let M' := pairs_by_ids sna M sids in
+    let so := r_so sna M' in let sd := r_sd sna M' in
+    let po := r_po pna M' in let pdraw := r_pdraw pna M' in
+    let vel := r_vel pna M' in
+    [ perm_pairs (map (fun m => (Z.to_nat (fst m), Z.to_nat (snd m))) midx) M
+        && forallb (fun m => (0 <=? fst m)%Z && (0 <=? snd m)%Z) midx;
+      sids_ok sna pna al sids ]
+    ++ enc_consistent_bits norm dtol bperr so sd po pdraw vel prm ncols
+    ++ [ forallb (fun d => decode_ok (fst d) dtol bperr so sd sids prm ncols (snd d)) decs;
+         check_tmaps true (tm_knots sna pna al rmo) ttol tests ]
+  end.
+Definition c18_check (c : c18_case) : bool := forallb (fun b => b) (c18_prop_bits c).
+
+(* normalisation columns by the formulas of TEMPO_NORMALIZATION.  Python applied 2** to logarithmic columns. *)
 Definition norm_ok (norm : Z) (mu var : Q) (b : Q) (cols : list Q) : bool :=
   match norm, cols with
   | 0%Z, [] => true
@@ -55,64 +167,15 @@ Definition norm_ok (norm : Z) (mu var : Q) (b : Q) (cols : list Q) : bool :=
   | _, _ => false
   end.
 
-Definition sel_rows (sna : list srow) (sids : list Z) : list srow :=
-  filter (fun r => existsb (Z.eqb (s_id r)) sids) sna.
-Definition lex2_leb (a b : Z * Z) : bool :=
-  match a, b with (a1, a2), (b1, b2) => (a1 <? b1)%Z || ((a1 =? b1)%Z && (a2 <=? b2)%Z) end.
-Definition dec_sort_idx (sel : list srow) : list nat :=
-  isort (fun i j => lex2_leb (s_div (nth i sel sdefault), s_pitch (nth i sel sdefault))
-                             (s_div (nth j sel sdefault), s_pitch (nth j sel sdefault)))
-        (seq 0 (List.length sel)).
-
-(* implementation's parameter row: beat_period, velocity, timing, 2^articulation_log *)
-Definition irow := (Q * Q * Q * Q)%type.
-Definition dec_out_ok (tol : Q) (got : Z * Q * Q * Z) (id : Z) (m : Q * Q * Z) : bool :=
-  match got, m with (gid, gon, gdu, gve), (mon, mdu, mve) =>
-    Z.eqb gid id && close 0 tol gon mon && close rel_log (1 # 1000000) gdu mdu && Z.eqb gve mve
-  end.
-
-Definition check_decode (norm : Z) (tol : Q) (sna : list srow) (sids : list Z)
-           (prm : list irow) (ncols : list (list Q)) (dec : list (Z * Q * Q * Z)) : bool :=
-  let sel := sel_rows sna sids in
-  let sidx := dec_sort_idx sel in
-  let so := map (fun i => s_on (nth i sel sdefault)) sidx in
-  let sd := map (fun i => s_dur (nth i sel sdefault)) sidx in
-  let G := dec_groups so in
-  match norm with
-  | 0%Z =>
-      let P := map (fun r => match r with (b, v, t, a) => mkP Q b b t a v end) prm in
-      let P' := map (fun i => nth i P (pdefault Q 0)) sidx in
-      let out := decode Q meanQ (fun x => x) 0 (fun x => x) so sd G P' in
-      Nat.eqb (List.length prm) (List.length sel) &&
-      all2 (fun g im => dec_out_ok tol g (fst im) (snd im)) dec (combine sids out)
-  | 2%Z =>
-      let P := map2 (fun r c => match r with (b, v, t, a) =>
-                   mkP (Q * Q) b (nthQ c 0, nthQ c 1) t a v end) prm ncols in
-      let P' := map (fun i => nth i P (pdefault (Q * Q) (0, 0))) sidx in
-      let out := decode (Q * Q) ratio_pmean ratio_rescale (0, 0) (fun x => x) so sd G P' in
-      Nat.eqb (List.length prm) (List.length sel) &&
-      all2 (fun g im => dec_out_ok tol g (fst im) (snd im)) dec (combine sids out)
-  | _ => true
-  end.
-
-(* time-map tests: (direction: true = score->performance, x, observed y) *)
-Definition check_tmaps (K : list (Q * Q)) (tol : Q) (tests : list (bool * Q * Q)) : bool :=
-  forallb (fun t => match t with (dir, x, y) =>
-     close 0 tol y (if dir : bool then stime_to_ptime K x else ptime_to_stime K x) end) tests.
-
-Definition c18_case :=
-  ((Z * Z) * list srow * list prow * list al_entry *
-   (list (Z * Z) * list Z * list irow * list (list Q) * (Z * Q * list (Z * Q * Q * Z))) *
-   (bool * Q * list (bool * Q * Q)))%type.
-
-(* bit k of the result = k-th comparison failed; 0 = all agree *)
-Definition c18_check_bits (c : c18_case) : list bool :=
+(* TIE bits: the formulas of Model/C18.v, in the implementation's row order *)
+Definition c18_tie_bits (c : c18_case) : list bool :=
   match c with
-  | ((method, norm), sna, pna, al, (midx, sids, prm, ncols, (decmode, dtol, dec)), (rmo, ttol, tests)) =>
-    let M := ms_pairs sna pna al in
-    let so := ms_so sna pna al in let sd := ms_sd sna pna al in
-    let po := ms_po sna pna al in let pd := ms_pd sna pna al in
-    let vel := ms_vel sna pna al in
+  | ((method, norm), sna, pna, al, (midx, sids, uidx, prm, ncols), (dtol, bperr, decs), (rmo, ttol, tests)) =>
+    let M := matched_idx (map s_id sna) (map C18.p_id pna) al in
+    let M' := pairs_by_ids sna M sids in
+    let so := r_so sna M' in let sd := r_sd sna M' in
+    let po := r_po pna M' in let pd := r_pd pna M' in
+    let vel := r_vel pna M' in
     let n := List.length so in
     let G := enc_groups so in
     let x := u_onsets so (map2 Qplus so sd) G in
@@ -120,16 +183,28 @@ Definition c18_check_bits (c : c18_case) : list bool :=
     let bp := tempo_curve method x s in
     let P := enc_rows so sd po pd vel G bp in
     let mu := meanQ bp in let var := Qred (varQ bp) in
-    [ list_eqb (fun a b => Z.eqb (fst a) (fst b) && Z.eqb (snd a) (snd b)) midx
-        (map (fun m => (Z.of_nat (fst m), Z.of_nat (snd m))) (matched_idx (map s_id sna) (map C18.p_id pna) al));
+    [ (* get_matched_notes lists the pairs in alignment order *)
+      list_eqb (fun a b => Z.eqb (fst a) (fst b) && Z.eqb (snd a) (snd b)) midx
+        (map (fun m => (Z.of_nat (fst m), Z.of_nat (snd m))) M);
+      (* snote_ids: ties of onset and pitch in note-array order *)
       list_eqb Z.eqb sids (ms_ids sna pna al);
-      groups_ok G n && groups_eqb (dec_groups so) G;
+      (* grouping: encoder (quantised keys) = decoder (eps) = what the implementation returned *)
+      groups_ok G n && groups_eqb (dec_groups so) G &&
+      list_eqb (list_eqb Z.eqb) uidx (map (map Z.of_nat) G);
+      (* built-in tempo curve positive *)
       forallb (fun b => negb (Qle_bool b 0)) bp;
+      (* beat_period = the modelled tempo curve; timing with origin mean of the first chord; v / 127;
+         articulation (1 for grace notes) *)
       all2 (fun r p => match r with (b, v, t, a) =>
               close rel_f32 abs_f32 b (p_bp Q p) && close rel_f32 abs_f32 v (p_vel Q p) &&
               close rel_f32 abs_f32 t (p_timing Q p) && close rel_log 0 a (p_art Q p) end) prm P;
       all2 (fun c p => norm_ok norm mu var (p_bp Q p) c) ncols P;
-      if Z.eqb decmode 0 then true else check_decode norm dtol sna sids prm ncols dec;
-      check_tmaps (tm_knots sna pna al rmo) ttol tests ]
+      (* decoded onsets start at 0 *)
+      forallb (fun d => match snd d with [] => true | _ =>
+                 close 0 abs_small (minl (map (fun r => match r with (_, o, _, _) => o end) (snd d))) 0 end) decs;
+      (* time maps linear between the knots, extrapolating with the end segments *)
+      check_tmaps false (tm_knots sna pna al rmo) ttol tests ]
   end.
-Definition c18_check (c : c18_case) : bool := forallb (fun b => b) (c18_check_bits c).
+Definition c18_tie (c : c18_case) : bool := forallb (fun b => b) (c18_tie_bits c).
+Definition c18_all (c : c18_case) : bool := c18_check c && c18_tie c.
+Definition c18_check_bits (c : c18_case) : list bool * list bool := (c18_prop_bits c, c18_tie_bits c).
